@@ -7,6 +7,12 @@ Monitors: the rendered rows (a token printed by the tree body), every expand/col
 the cookie, and contract wrappers on the real ``apply_diff`` / ``encode_seq`` / ``decode_seq``.
 Oracle: a set of expanded paths (vlib/c20_util.Model) and an independent base64/zlib/json
 decoder; both written from the property statement and the tpRender docstring.
+"Any node ids" is taken at its word: besides ASCII / long / non-ASCII / int ids the trees and the
+codec states use the rest of the str value space (unpaired surrogates, control characters, ...);
+the one spelling JSON text cannot keep apart (a high surrogate directly before a low one) has a
+probe of its own, and a merge there is filed under a mechanism key.
+The verdict rests on what the engine emits; the wrappers and anchors on private functions are
+diagnosis (see finish()).
 """
 import json
 
@@ -14,16 +20,28 @@ from vlib import c20_util as U
 
 ID = 'C20'
 LEVEL = 'exploration'
-RULE = ('histories: every ordered tree shape (quick <= 5 nodes, thorough <= 7 nodes) x 9 id schemes '
+RULE = ('histories: every ordered tree shape (quick <= 5 nodes, thorough <= 7 nodes) x 11 id schemes '
         '(ASCII, equal ids along a path, ints incl. 0, int/str/empty mixes, 70+ char ids, non-ASCII, '
-        'URL-hostile, _p_oid, id()) x tag-option variants, explored breadth-first over every action the '
-        'page offers (each link, expand_all, collapse_all, reload, refresh) to history length 4 | 5, '
-        'deduplicated on (cookie, model state); seeded random trees up to 60 nodes with long / non-ASCII '
-        'ids x random histories <= 40; codec: seeded growth paths of nested states whose compressed size '
-        'walks through every value up to 130..700 bytes. One case = one request (or one codec state); it '
+        'URL-hostile, _p_oid, id(); and the rest of the str value space: unpaired / swapped / doubled '
+        'surrogates next to ASCII and astral characters, control characters, NUL, DEL, C1, U+2028/9, BOM, '
+        'non-characters, escape look-alikes) x tag-option variants, explored breadth-first over every '
+        'action the page offers (each link, expand_all, collapse_all, reload, refresh) to history length '
+        '4 | 5, deduplicated on (cookie, model state); seeded random trees up to 60 nodes with long / '
+        'non-ASCII ids x random histories <= 40, and a second batch of random trees whose ids are drawn '
+        'from all code points (surrogates, controls included); codec: seeded growth paths of nested '
+        'states whose compressed size walks through every value up to 130..700 bytes, ids over ASCII / '
+        'non-ASCII / hostile / surrogate / control alphabets, ints, and (codec only) float, bool and None '
+        'ids; a probe of ids holding an adjacent high+low surrogate pair. One case = one request (or one '
+        'codec state); it '
         'is non-trivial when the tree has a node that can be expanded (the state is non-empty); distinct = '
         'distinct (variant, tree, history so far, action) resp. distinct encoded strings')
-ASSUMPTIONS = ['sibling ids are unique (a path of ids names one node); ids are str or int',
+ASSUMPTIONS = ['sibling ids are unique (a path of ids names one node); ids are str or int (histories), any '
+               'JSON scalar (codec)',
+               'any str is an id, unpaired surrogates included; ids in the rendered histories avoid only '
+               '< > " [ ] (the tag writes the id unquoted into name="..." and the harness parses that HTML)',
+               'a high surrogate directly followed by a low one inside one id is generated only by the '
+               'dedicated pair probe (JSON text spells it like the astral character; a merge there is '
+               'reported under its own mechanism key, everything else in the probe is judged normally)',
                'a leaf may carry a link (assume_children): only nodes WITH children are required to '
                'carry exactly one; a clicked leaf simply joins the expanded set',
                'the cookie describes the set when its paths, plus the root entry, equal the model set',
@@ -37,7 +55,11 @@ NSHARDS = {'quick': 16, 'thorough': 48}
 MAXNODES = {'quick': 5, 'thorough': 7}
 HISTLEN = {'quick': 4, 'thorough': 5}
 RANDOM_TREES = {'quick': 480, 'thorough': 5000}
+WILD_TREES = {'quick': 160, 'thorough': 1600}          # random trees with ids from all code points
 CODEC_STATES = {'quick': 64000, 'thorough': 400000}
+CODEC_WILD_STATES = {'quick': 24000, 'thorough': 150000}   # surrogate / control / scalar alphabets
+PAIR_STATES = {'quick': 640, 'thorough': 4800}
+MECH_PAIR = 'adjacent-high-low-surrogates-merge-in-json-text'
 LEAFSTYLES = ('missing', 'empty', 'mixed')
 
 
@@ -58,12 +80,14 @@ class Monitors:
         from TreeDisplay import TreeTag
         ctx = self.ctx
         problems = self.problems
-        self.real_encode_seq = real_encode_seq = TreeTag.encode_seq
-        self.real_decode_seq = real_decode_seq = TreeTag.decode_seq
-        self.real_apply_diff = real_apply_diff = TreeTag.apply_diff
-        self.real_encode_str = TreeTag.encode_str
-        self.compress = TreeTag.compress
-        self.decompress = TreeTag.decompress
+        # private names of TreeTag.py: a missing one switches its wrapper (a diagnostic) off, the
+        # output-level comparisons go on; the codec workload needs encode_seq and decode_seq
+        self.real_encode_seq = real_encode_seq = getattr(TreeTag, 'encode_seq', None)
+        self.real_decode_seq = real_decode_seq = getattr(TreeTag, 'decode_seq', None)
+        self.real_apply_diff = real_apply_diff = getattr(TreeTag, 'apply_diff', None)
+        self.real_encode_str = getattr(TreeTag, 'encode_str', None)
+        self.compress = getattr(TreeTag, 'compress', None)
+        self.decompress = getattr(TreeTag, 'decompress', None)
 
         def encode_seq(state):
             r = real_encode_seq(state)
@@ -125,10 +149,11 @@ class Monitors:
 
         for f, real in ((encode_seq, real_encode_seq), (decode_seq, real_decode_seq),
                         (apply_diff, real_apply_diff)):
+            if real is None:
+                ctx.count('monitor:not installed (%s is gone)' % f.__name__)
+                continue
             f.__wrapped__ = real
-        TreeTag.encode_seq = encode_seq
-        TreeTag.decode_seq = decode_seq
-        TreeTag.apply_diff = apply_diff
+            setattr(TreeTag, f.__name__, f)
 
 
 def size_bucket(n):
@@ -142,6 +167,11 @@ def size_bucket(n):
 def short(x, n=240):
     s = x if isinstance(x, str) else repr(x)
     return s if len(s) <= n else s[:n] + '...(%d)' % len(s)
+
+
+def safe(s):
+    """Messages are printed by the driver: keep them encodable whatever the ids were."""
+    return s.encode('utf-8', 'backslashreplace').decode('utf-8')
 
 
 def slug(s):
@@ -189,6 +219,10 @@ class Browser:
         self.rootobj, mroot = U.build(spec, v)
         self.model = Model(mroot, v)
         self.nontrivial = bool(self.model.internal_paths())
+        # which expandable nodes carry an id of the wider str space (evidence that such ids were
+        # in the state that the cookie had to carry, not merely somewhere in the tree)
+        self.lone_paths = {p for p in self.model.internal_paths() if U.has_lone(p[-1])}
+        self.ctrl_paths = {p for p in self.model.internal_paths() if U.has_ctrl(p[-1])}
         self.cookie = None
         self.page = None
         self.last_form = None
@@ -278,7 +312,7 @@ class Browser:
             out = self.tmpl(client, request)
         except Exception as e:
             mech = classify_raise(e, self)
-            ctx.violation('request %s raised %s: %s' % (kind, type(e).__name__, str(e)[:160]), case,
+            ctx.violation(safe('request %s raised %s: %s' % (kind, type(e).__name__, str(e)[:160])), case,
                           mech=mech, key='raise_%s_%s' % (self.vname, type(e).__name__),
                           detail={'cookie': self.cookie, 'form': form, 'source': self.src})
             return False
@@ -286,10 +320,10 @@ class Browser:
         problems = list(self.mon.problems)
         cookie, page = self.check_page(out, resp, problems)
         if problems:
-            ctx.violation('; '.join(problems[:3]), case,
+            ctx.violation(safe('; '.join(problems[:3])), case,
                           key='hist_%s_%s' % (self.vname, slug(problems[0])),
                           detail={'cookie_before': self.cookie, 'form': form, 'source': self.src,
-                                  'output': out[:1500] if isinstance(out, str) else repr(out)[:300],
+                                  'output': safe(out[:1500]) if isinstance(out, str) else repr(out)[:300],
                                   'cookies': [c[:2] for c in resp.cookies][:3],
                                   'model_expanded': sorted(map(list, m.expanded), key=repr)[:40]})
             return False
@@ -345,9 +379,15 @@ class Browser:
                             continue
                         if n > 57:
                             ctx.count('histories:link over 57 compressed bytes')
+                        if self.lone_paths and U.has_lone(path[-1]):
+                            ctx.count('ids:links of unpaired-surrogate ids')
+                        if self.ctrl_paths and U.has_ctrl(path[-1]):
+                            ctx.count('ids:links of control-character ids')
                         if not U.same_ids(dec, full):
                             problems.append('link of T%d names %s, the node is %s'
                                             % (tok, short(dec, 100), short(full, 100)))
+                        if mon.real_decode_seq is None:
+                            continue
                         try:
                             edec = mon.real_decode_seq(value)
                         except Exception as e:
@@ -382,11 +422,17 @@ class Browser:
                 ctx.count('histories:cookie over 57 compressed bytes')
             if len(value) > 76:
                 ctx.count('histories:cookie over 76 characters')
+            if self.lone_paths and not self.lone_paths.isdisjoint(m.expanded):
+                ctx.count('ids:cookies carrying an expanded unpaired-surrogate id')
+            if self.ctrl_paths and not self.ctrl_paths.isdisjoint(m.expanded):
+                ctx.count('ids:cookies carrying an expanded control-character id')
             if got != want:
                 problems.append('cookie describes %s, expanded set is %s'
                                 % (short(sorted(got - want, key=repr), 120) + ' extra / ' +
                                    short(sorted(want - got, key=repr), 120) + ' missing',
                                    short(sorted(map(list, m.expanded), key=repr), 160)))
+            if mon.real_decode_seq is None:
+                continue
             try:
                 edec = mon.real_decode_seq(value)
             except Exception as e:
@@ -474,22 +520,50 @@ def random_history(ctx, mon, templates, rng, vname, spec, treekey, steps):
 
 
 # ---- codec
-def codec_check(ctx, mon, state, form):
-    """One state through the engine's encoder and decoder, and through the independent decoder."""
-    case = {'kind': 'codec', 'form': form, 'state': state}
+def codec_case(form, state):
+    """Replayable description of a codec state.  A replay file is JSON: it could not hold an
+    adjacent surrogate pair (json.load would hand back the astral character), so such states
+    travel as an ASCII Python literal."""
+    if any(U.has_pair(x) for x in U.ids_of(state)):
+        return {'kind': 'codec', 'form': form, 'state_literal': ascii(state)}
+    return {'kind': 'codec', 'form': form, 'state': state}
+
+
+def codec_check(ctx, mon, state, form, pairs=False):
+    """One state through the engine's encoder and decoder, and through the independent decoder.
+
+    pairs: the state holds an id with an adjacent high+low surrogate pair (pair probe).  The
+    demand is the same (the state comes back unchanged); a result that differs from the state
+    ONLY by such pairs having become astral characters is filed under MECH_PAIR."""
+    case = codec_case(form, state)
     try:
         if form == 'seq':
             enc = mon.real_encode_seq(state)
         else:
-            enc = mon.real_encode_str(mon.compress(json.dumps(state))).decode('ascii')
+            enc = mon.real_encode_str(mon.compress(json.dumps(state, ensure_ascii=False))).decode('ascii')
     except Exception as e:
         ctx.case(('codec', form, repr(state)), bool(state))
-        ctx.violation('encoding raised %s: %s' % (type(e).__name__, str(e)[:120]), case,
-                      key='codec_encode_raise_%s' % type(e).__name__)
+        ctx.violation(safe('encoding raised %s: %s' % (type(e).__name__, str(e)[:120])), case,
+                      key='codec_encode_raise_%s' % type(e).__name__,
+                      detail={'state': ascii(state)[:600]})
         return None
     ctx.case(('codec', form, enc), bool(state))
     ctx.count('codec:%s states' % form)
+    if pairs:
+        ctx.count('codec:states with an adjacent surrogate pair')
+    else:
+        lone = ctrl = False
+        for x in U.ids_of(state):
+            if isinstance(x, str):
+                lone = lone or U.has_lone(x)
+                ctrl = ctrl or U.has_ctrl(x)
+        if lone:
+            ctx.count('codec:states with unpaired surrogates')
+        if ctrl:
+            ctx.count('codec:states with control characters')
     problems = []
+    merged = []        # the results that differ from the state by merged pairs only
+    want_merged = U.merge_pairs(state) if pairs else None
     n = None
     if not U.transport_safe(enc):
         problems.append('encoded value is not transport safe: %r' % enc[:80])
@@ -499,19 +573,26 @@ def codec_check(ctx, mon, state, form):
         dec, n = U.indep_decode(enc)
         if not U.same_ids(dec, state):
             problems.append('independent decoder reads %s' % short(dec, 160))
+            merged.append(pairs and U.same_ids(dec, want_merged))
     except U.FormError as e:
         problems.append(str(e))
+        merged.append(False)
     try:
         edec = mon.real_decode_seq(enc)
         if not U.same_ids(edec, state):
             problems.append('decode_seq(encode(state)) = %s' % short(edec, 160))
+            merged.append(pairs and U.same_ids(edec, want_merged))
     except Exception as e:
         problems.append('decode_seq raised %s: %s' % (type(e).__name__, str(e)[:100]))
+        merged.append(False)
+    if pairs and not problems:
+        ctx.count('codec:adjacent surrogate pairs that came back apart')
     if problems:
-        ctx.violation('codec (%s form, %s compressed bytes, %d characters): %s'
-                      % (form, n, len(enc), '; '.join(problems[:3])), case,
+        mech = MECH_PAIR if pairs and len(merged) == len(problems) and all(merged) else None
+        ctx.violation(safe('codec (%s form, %s compressed bytes, %d characters): %s'
+                           % (form, n, len(enc), '; '.join(problems[:3]))), case, mech=mech,
                       key='codec_%s_%s' % (form, slug(problems[0])),
-                      detail={'encoded': enc[:600], 'state': short(state, 600)})
+                      detail={'encoded': enc[:600], 'state': ascii(state)[:600]})
     return n
 
 
@@ -519,24 +600,91 @@ CODEC_ALPHABETS = {
     'ascii': U.ASCII_ALPHA + '<>"[]\n\t',
     'uni': ''.join(chr(c) for lo, hi in U.UNI_RANGES for c in range(lo, min(hi, lo + 40) + 1)),
     'hostile': '+-=/%&;, \\"\'\x00\x7f\ufffe\U0010ffff\u2028',
+    # the rest of the str value space (no high surrogate is ever put directly before a low one)
+    'surr': 'ab.\xe9\u65e5\U0001f600\U0010fffd\ud800\udbff\udb80\ud83d\udc00\udfff\udcff\ude00',
+    'ctrl': ''.join(map(chr, range(0x20))) + '\x7f\x80\x85\x9f\xa0\xad\u2028\u2029\u200b\u202e\ufeff\ufffd'
+            '\ufffe\uffff\U0001fffe\U0010ffff\\u"\'/b',
 }
+OLD_ALPHABETS = ['ascii', 'ascii', 'uni', 'hostile']
+WILD_ALPHABETS = ['surr', 'surr', 'ctrl', 'ascii', 'uni']
+SCALARS = [True, False, None, 0.0, -0.0, 0.5, -1.5, 1e308, 5e-324, 1e22, 0.1, 2.0 ** 53 + 2]
 
 
-def codec_paths(ctx, mon, rng, budget, sizes):
+def glue(s, c):
+    """s + c, unless that would put a high surrogate directly before a low one."""
+    return s if U.has_pair(s[-1:] + c) else s + c
+
+
+LARGE_TEXT_SIZES = (1000, 2040, 4090, 4096, 4097, 4200, 8191, 8192, 8200, 16384, 32768, 65536, 70000, 200000)
+
+
+def codec_large(ctx, mon, rng, sizes):
+    """States whose JSON text is large ("any state size"): wide and deep states of long ids, repetitive
+    (compress well: a small cookie that inflates to many kilobytes) and random (compress badly); the text
+    length straddles the powers of two a bounded inflate buffer would use."""
+    targets = [t for i, t in enumerate(LARGE_TEXT_SIZES) if i % ctx.nshards == ctx.shard % len(LARGE_TEXT_SIZES)] \
+        or [rng.choice(LARGE_TEXT_SIZES)]
+    for target in targets:
+        for style in ('repetitive', 'random', 'deep'):
+            for form in ('seq', 'str'):
+                alpha = CODEC_ALPHABETS[rng.choice(['ascii', 'uni'])]
+                ids = []
+                total = 0
+                while total < target:
+                    k = rng.choice([3, 12, 40, 200])
+                    if style == 'repetitive':
+                        x = 'node-%d-' % len(ids) + 'ab' * (k // 2)
+                    else:
+                        x = ''.join(rng.choice(alpha) for _ in range(k)) + str(len(ids))
+                    ids.append(x)
+                    total += len(json.dumps(x, ensure_ascii=False)) + 4
+                if form == 'str':
+                    state = ids
+                elif style == 'deep':
+                    # a spine 30 levels deep; the other ids hang off its last level
+                    state = level = []
+                    for i, x in enumerate(ids):
+                        e = [x, []]
+                        level.append(e)
+                        if i < 30:
+                            level = e[1]
+                else:
+                    state = [[x] if i % 3 else [x, [[y] for y in ids[i + 1:i + 3]]] for i, x in enumerate(ids)]
+                ctx.count('codec:large states')
+                ctx.table('codec large states (JSON text length)', '%s %s >= %d' % (form, style, target))
+                n = codec_check(ctx, mon, state, form)
+                if n is not None:
+                    sizes[form].add(n)
+
+
+def codec_paths(ctx, mon, rng, budget, sizes, alphabets=OLD_ALPHABETS, wild=False):
     """Growth paths: a nested state grows by one character or one entry per step; every
-    intermediate state is checked, so the compressed size walks through the thresholds."""
+    intermediate state is checked, so the compressed size walks through the thresholds.
+
+    wild: the second batch -- surrogate / control alphabets and, on some paths, ids that are
+    float / bool / None (the statement says "any node ids"; JSON scalars are what a state holds)."""
     done = 0
     while done < budget:
         form = 'seq' if rng.random() < 0.75 else 'str'
-        alpha = CODEC_ALPHABETS[rng.choice(['ascii', 'ascii', 'uni', 'hostile'])]
+        aname = rng.choice(alphabets)
+        alpha = CODEC_ALPHABETS[aname]
         ints = rng.random() < 0.3
+        scalars = wild and rng.random() < 0.25
         limit = rng.choice([70, 130, 130, 250, 420, 420, 700])
         ctx.count('codec:growth paths')
+        if wild:
+            ctx.table('codec wild alphabets', aname + ('+scalars' if scalars else ''))
 
         def fresh():
             if ints and rng.random() < 0.5:
                 return rng.choice([rng.randint(-9, 99), rng.randint(-2 ** 70, 2 ** 70)])
-            return ''.join(rng.choice(alpha) for _ in range(rng.choice([0, 1, 1, 2, 8])))
+            if scalars and rng.random() < 0.4:
+                ctx.count('codec:float / bool / None ids')
+                return rng.choice([rng.choice(SCALARS), rng.uniform(-1, 1) * 10 ** rng.randint(-9, 30)])
+            out = ''
+            for _ in range(rng.choice([0, 1, 1, 2, 8])):
+                out = glue(out, rng.choice(alpha))
+            return out
 
         if form == 'seq':
             state = [[fresh()]]
@@ -558,14 +706,14 @@ def codec_paths(ctx, mon, rng, budget, sizes):
             if form == 'str':
                 i = rng.randrange(len(state))
                 if isinstance(state[i], str) and rng.random() < pchar:
-                    state[i] += rng.choice(alpha)
+                    state[i] = glue(state[i], rng.choice(alpha))
                 else:
                     state.append(fresh())
                 continue
             if rng.random() < pchar:
                 h = rng.choice(holders)
                 if isinstance(h[0], str):
-                    h[0] += rng.choice(alpha)
+                    h[0] = glue(h[0], rng.choice(alpha))
                     continue
             # a new entry: child of a random entry or sibling at a random level
             e = [fresh()] if rng.random() < 0.7 else [fresh(), []]
@@ -584,6 +732,9 @@ def codec_paths(ctx, mon, rng, budget, sizes):
                 levels.append(e[1])
         # compress / decompress are inverse on text
         text = alpha * rng.randint(0, 3)
+        if U.has_lone(text):
+            # compress() takes the JSON text of a state; it is not asked to carry what UTF-8 cannot
+            text = json.dumps(text)
         ctx.count('codec:compress/decompress round trips')
         try:
             back = mon.decompress(mon.compress(text))
@@ -593,6 +744,52 @@ def codec_paths(ctx, mon, rng, budget, sizes):
         except Exception as e:
             ctx.violation('compress/decompress raised %s: %s' % (type(e).__name__, e),
                           {'kind': 'zip', 'text': text}, key='codec_zip_raise')
+
+
+def pair_probe(ctx, mon, rng, budget):
+    """States in which some id holds a high surrogate directly followed by a low one.  Same
+    demand as everywhere (the state comes back unchanged); see codec_check(pairs=True)."""
+    his = '\ud800\ud83d\udbff'
+    los = '\udc00\ude00\udfff'
+    fill = 'ab \xe9\u65e5\U0001f600\udc80\ud801'
+    for _ in range(budget):
+        def pid():
+            out = ''
+            for _ in range(rng.choice([0, 0, 1, 3])):
+                out = glue(out, rng.choice(fill))
+            out += rng.choice(his) + rng.choice(los)
+            for _ in range(rng.choice([0, 0, 1, 3])):
+                out += rng.choice(fill)
+            return out
+
+        def plain():
+            out = ''
+            for _ in range(rng.choice([1, 2, 6])):
+                out = glue(out, rng.choice(fill))
+            return out
+        form = 'seq' if rng.random() < 0.75 else 'str'
+        n = rng.randint(1, 6)
+        ids = [pid() if i == 0 or rng.random() < 0.3 else plain() for i in range(n)]
+        rng.shuffle(ids)
+        if form == 'str':
+            state = ids
+        else:
+            # a chain with side entries: [[id0, [[id1, [[id2]]], [id3]]]]
+            state = []
+            lvl = state
+            for x in ids:
+                e = [x, []]
+                lvl.append(e)
+                if rng.random() < 0.7:
+                    lvl = e[1]
+            def prune(entries):
+                for e in entries:
+                    if e[1]:
+                        prune(e[1])
+                    else:
+                        del e[1]
+            prune(state)
+        codec_check(ctx, mon, state, form, pairs=True)
 
 
 def critical_sizes(form):
@@ -614,6 +811,14 @@ def bfs_jobs(tier):
                 i += 1
                 for j, vname in enumerate(names):
                     jobs.append((shape, scheme, LEAFSTYLES[(i + j) % 3], vname))
+    # the id schemes of the wider str space, appended (the list above is unchanged by them)
+    i = 0
+    for n in range(1, MAXNODES[tier] + 1):
+        for shape in U.shapes(n):
+            for scheme in U.SCHEMES_WILD:
+                i += 1
+                for j, vname in enumerate(names):
+                    jobs.append((shape, scheme, LEAFSTYLES[(i + j) % 3], vname))
     return jobs
 
 
@@ -621,9 +826,12 @@ def run(ctx, spec):
     from TreeDisplay import TreeTag
     from vlib.reach import Reach
     reach = Reach()
-    for name in ('encode_seq', 'decode_seq', 'encode_str', 'compress', 'decompress', 'apply_diff',
-                 'tpRender', 'tpRenderTABLE', 'tpStateLevel', 'tpValuesIds'):
-        reach.watch('TreeTag.' + name, getattr(TreeTag, name))
+    for name in ANCHORS:
+        f = getattr(TreeTag, name, None)
+        if f is None:       # renamed / inlined: the anchor is diagnosis, see finish()
+            ctx.count('reach:missing TreeTag.' + name)
+            continue
+        reach.watch('TreeTag.' + name, f)
     reach.start()
     mon = Monitors(ctx)
     mon.install()
@@ -666,9 +874,25 @@ def run(ctx, spec):
                         'history': b.history[:12], 'cookie': short(b.cookie, 200),
                         'rows': [t for t, _ in b.page][:30]})
 
+    # 2b. random trees whose ids come from all code points (unpaired surrogates, controls, ...)
+    for j in range(WILD_TREES[tier] // ctx.nshards):
+        tspec = U.random_spec(rng, 40, U.WILD_STYLES)
+        vname = rng.choice(vnames)
+        treekey = 'wild/%d/%d/%d' % (ctx.seed, ctx.shard, j)
+        ctx.count('random:trees with ids from all code points')
+        ctx.table('variants (random)', vname)
+        random_history(ctx, mon, templates, rng, vname, tspec, treekey, rng.randint(5, 30))
+
     # 3. codec growth paths
     sizes = {'seq': set(), 'str': set()}
-    codec_paths(ctx, mon, rng, CODEC_STATES[tier] // ctx.nshards, sizes)
+    if None in (mon.real_encode_seq, mon.real_decode_seq, mon.real_encode_str, mon.compress, mon.decompress):
+        ctx.inconclusive('codec workload not run: encode_seq / decode_seq / encode_str / compress / '
+                         'decompress are not all present in TreeDisplay.TreeTag')
+    else:
+        codec_paths(ctx, mon, rng, CODEC_STATES[tier] // ctx.nshards, sizes)
+        codec_paths(ctx, mon, rng, CODEC_WILD_STATES[tier] // ctx.nshards, sizes, WILD_ALPHABETS, wild=True)
+        pair_probe(ctx, mon, rng, PAIR_STATES[tier] // ctx.nshards)
+        codec_large(ctx, mon, rng, sizes)
     for form in sizes:
         for s in critical_sizes(form):
             if s in sizes[form]:
@@ -679,23 +903,48 @@ def run(ctx, spec):
     reach.report(ctx)
 
 
+ANCHORS = ('encode_seq', 'decode_seq', 'encode_str', 'compress', 'decompress', 'apply_diff',
+           'tpRender', 'tpRenderTABLE', 'tpStateLevel', 'tpValuesIds')
+# The verdict rests on what the engine EMITS (rows, links, cookies, encoded strings) read by the
+# independent decoder.  The anchors above and the contract wrappers on apply_diff / encode_seq /
+# decode_seq look at private functions of TreeTag.py; when one of them is not entered (renamed,
+# inlined) that is reported as a diagnostic, and it makes the run inconclusive only if the
+# output-level comparison it backs up was not evaluated either.
+OUTPUT_LEVEL = ('rows:compared', 'links:nodes with children checked', 'links:tree-e', 'links:tree-c',
+                'cookies:checked')
+INTERNAL = ('monitor:encode_seq postconditions', 'monitor:decode_seq postconditions',
+            'monitor:apply_diff expand', 'monitor:apply_diff collapse',
+            'monitor:apply_diff collapse with descendants in state')
+
+
 def finish(agg):
     c = agg['counters']
     t = agg['tables']
     inc = []
-    for r in ('encode_seq', 'decode_seq', 'encode_str', 'compress', 'decompress', 'apply_diff',
-              'tpRender', 'tpRenderTABLE', 'tpStateLevel', 'tpValuesIds'):
+    diagnostics = []
+    output_ok = all(c.get(k) for k in OUTPUT_LEVEL)
+    for r in ANCHORS:
         if not c.get('reach:TreeTag.' + r):
-            inc.append('anchor never entered: TreeTag.' + r)
-    for k in ('monitor:encode_seq postconditions', 'monitor:decode_seq postconditions',
-              'monitor:apply_diff expand', 'monitor:apply_diff collapse',
-              'monitor:apply_diff collapse with descendants in state',
-              'histories:collapse of a node with expanded descendants',
+            (diagnostics if output_ok else inc).append('anchor never entered: TreeTag.' + r)
+    for k in INTERNAL:
+        if not c.get(k):
+            (diagnostics if output_ok else inc).append('internal monitor never evaluated: ' + k)
+    for k in OUTPUT_LEVEL:
+        if not c.get(k):
+            inc.append('deciding monitor never evaluated: ' + k)
+    for k in ('histories:collapse of a node with expanded descendants',
               'histories:cookie over 57 compressed bytes', 'histories:cookie over 76 characters',
               'histories:link over 57 compressed bytes',
-              'links:tree-e', 'links:tree-c', 'cookies:checked', 'requests:click',
+              'requests:click',
               'requests:expand_all', 'requests:collapse_all', 'requests:reload', 'requests:refresh',
-              'codec:seq states', 'codec:str states'):
+              'codec:seq states', 'codec:str states',
+              # the wider id space must have been IN the state the cookie / the link carried
+              'ids:cookies carrying an expanded unpaired-surrogate id',
+              'ids:cookies carrying an expanded control-character id',
+              'ids:links of unpaired-surrogate ids', 'ids:links of control-character ids',
+              'random:trees with ids from all code points',
+              'codec:states with unpaired surrogates', 'codec:states with control characters',
+              'codec:float / bool / None ids', 'codec:states with an adjacent surrogate pair'):
         if not c.get(k):
             inc.append('deciding monitor never evaluated: ' + k)
     for form in ('seq', 'str'):
@@ -706,11 +955,14 @@ def finish(agg):
     nshapes = {'quick': 23, 'thorough': 197}[agg['tier']]
     return {'inconclusive': inc,
             'coverage': {'exhaustive': True,
-                         'explanation': 'exhaustive: all %d ordered tree shapes with <= %d nodes x 9 id schemes x '
+                         'internal_anchor_diagnostics': diagnostics,
+                         'explanation': 'exhaustive: all %d ordered tree shapes with <= %d nodes x %d id schemes x '
                                         '%d tag-option variants, every action of every '
                                         'page up to history length %d deduplicated on (cookie, model state); the random '
-                                        'trees/histories and the codec growth paths are seeded samples'
-                                        % (nshapes, MAXNODES[agg['tier']], len(U.VARIANTS), HISTLEN[agg['tier']])}}
+                                        'trees/histories, the codec growth paths and the surrogate-pair probe are '
+                                        'seeded samples'
+                                        % (nshapes, MAXNODES[agg['tier']], len(U.SCHEMES) + len(U.SCHEMES_WILD),
+                                           len(U.VARIANTS), HISTLEN[agg['tier']])}}
 
 
 def replay(ctx, rep):
@@ -718,7 +970,12 @@ def replay(ctx, rep):
     mon.install()
     c = rep['case']
     if c['kind'] == 'codec':
-        codec_check(ctx, mon, c['state'], c['form'])
+        if 'state_literal' in c:
+            import ast
+            state = ast.literal_eval(c['state_literal'])
+            codec_check(ctx, mon, state, c['form'], pairs=any(U.has_pair(x) for x in U.ids_of(state)))
+        else:
+            codec_check(ctx, mon, c['state'], c['form'])
         return
     if c['kind'] == 'zip':
         if mon.decompress(mon.compress(c['text'])) != c['text']:
